@@ -399,6 +399,12 @@ class FlowParser:
                     index_variable = None
                     if len(row.loop_variable) >= 2 and row.loop_variable[1]:
                         index_variable = row.loop_variable[1]
+                    loop_variables = [iteration_variable]
+                    if index_variable:
+                        loop_variables.append(index_variable)
+                    # Loop variables are local to the loop: whatever they hide is
+                    # put back once the loop is done.
+                    shadowed = self.sheet_parser.get_shadowed_context(loop_variables)
                     self.sheet_parser.create_bookmark(str(depth))
                     new_node_group = NodeGroup()
                     self.node_group_stack.append(new_node_group)
@@ -413,9 +419,13 @@ class FlowParser:
                         self._parse_block(depth + 1, "for")
                     self.node_group_stack.pop()
                     self.append_node_group(new_node_group, row.row_id)
-                    self.sheet_parser.remove_from_context(iteration_variable)
-                    if index_variable:
-                        self.sheet_parser.remove_from_context(index_variable)
+                    for variable in loop_variables:
+                        if variable in shadowed:
+                            self.sheet_parser.add_to_context(
+                                variable, shadowed[variable]
+                            )
+                        else:
+                            self.sheet_parser.remove_from_context(variable)
                     self.sheet_parser.remove_bookmark(str(depth))
                 elif row.type == "begin_block":
                     new_node_group = NodeGroup()
